@@ -5,6 +5,11 @@ IDS = ["C%02d" % i for i in range(1, 21)]
 
 # id -> (engine, category, technique, text, note, design_ref)
 CHECKS = {
+ "C20": ("E1-enumeration+child-procs", "exploration",
+   "bounded-exhaustive enumeration of header/message/byte-string spaces into all decoders under a counting allocator; CLI file readers under RLIMIT_AS and a timeout",
+   "Headers: 5 magics x 7 lengths x all 256 type bytes x all 256 version bytes x 3 flag values (6.9 M) through FrameHeader::decode and read_from: accepted iff COPA, version 1, type 1..7, length <= 2^24, and accepted headers re-encode identically. Messages: all 7 kinds over boundary menus (ids, block sizes, empty/multi-byte/70 000-char strings, Option both ways, signatures/deltas from the C01 byte-level space plus a > 64 KiB one, extreme field values) through Message encode/decode, Codec write/read (COPA, version byte, LE length == payload) and bincode files; > 16 MiB refused both ways. Totality: every byte string of length <= 2 (all values) and <= 5/6 over 8 values, every truncation and 7 values at every position of ~40 valid encodings, field-level corruptions (block size, counts, lengths up to 2^64-1), into every decoder under catch_unwind with the largest single allocation bounded by 16 MiB + 64 KiB. CLI: the field corruptions and truncations of real .sig/.delta files into `copia delta`/`copia patch` under RLIMIT_AS = 1 GiB and a 10 s timeout: exit 1 with a message, or 0 only for a file that decodes; never a signal or hang.",
+   "Length/alphabet bounds as stated; allocation measured per decode call on the calling thread.",
+   "DESIGN.md §3 C20"),
  "C05": ("E1-enumeration+child-procs+CLI", "exploration",
    "bounded-exhaustive enumeration of single and pairwise mutations of valid (basis, delta) pairs on both engines; child processes under RLIMIT_AS; real `copia patch`",
    "Base cases: every (basis, source) over {0,1}^<=4 at block sizes 1 and 2 plus six chunk-level cases at B=512. Mutation menu: other basis, every truncation, extension, every bit flip, copy offset/len edits (+-1, +-B, basis_size, MAX), op drop/dup/swap/reverse, literal flip/truncate/extend, source_size/basis_size/block_size/checksum edits. All singles and all unordered pairs (quick: pairs on a sub-set). Oracle: Ok => BLAKE3(output) == delta.checksum; panic, abort or signal is a violation; huge declared lengths run in a child under RLIMIT_AS = 1 GiB so an allocation abort is observed. CLI: every single mutation of the chunk cases through `copia patch` under the same limit: exit 0 => output hashes to the delta's checksum, else exit 1 with a message, never a signal.",
